@@ -400,7 +400,7 @@ Definition on_event (ev : event) (s : st) : st * list cb * bool :=
   | EvPubReady corr orig stream session limit chstat =>
       match lookup corr (pubs s) with
       | Some e => if is_awaiting e
-                  then (setm KPub (upd corr (set_ready session limit chstat orig None) (pubs s)) s,
+                  then (setm KPub (upd corr (set_ready session limit chstat orig (e_obj e)) (pubs s)) s,
                         [CbNewPub corr stream session (e_a1 e)], false)
                   else (s, [], false)
       | None => (s, [], false)
@@ -408,7 +408,7 @@ Definition on_event (ev : event) (s : st) : st * list cb * bool :=
   | EvXPubReady id stream session limit chstat =>
       match lookup id (xpubs s) with
       | Some e => if is_awaiting e
-                  then (setm KXPub (upd id (set_ready session limit chstat (-1) None) (xpubs s)) s,
+                  then (setm KXPub (upd id (set_ready session limit chstat (-1) (e_obj e)) (xpubs s)) s,
                         [CbNewXPub id stream session (e_a1 e)], false)
                   else (s, [], false)
       | None => (s, [], false)
